@@ -33,6 +33,10 @@ def _graphs(tier):
             out.append((f"atlas-n{n}m{m}", sorted(g.nodes()), list(g.edges())))
     for M in range(1, 6):
         out.append((f"star{M}", list(range(M + 1)), [(0, j) for j in range(1, M + 1)]))
+    # multigraphs: parallel edges are separate bonds
+    out.append(("multi-double-edge", [0, 1], [(0, 1), (0, 1)]))
+    out.append(("multi-triangle-doubled-side", [0, 1, 2], [(0, 1), (0, 1), (1, 2), (0, 2)]))
+    out.append(("multi-path-triple", [0, 1, 2], [(0, 1), (1, 2), (1, 2), (1, 2)]))
     return out
 
 
@@ -77,11 +81,16 @@ def path(ctx, cfg):
 
     nodes, edges = cfg["nodes"], cfg["edges"]
     N, m = len(nodes), len(edges)
-    g = nx.Graph()
+    multi = len(set(map(frozenset, edges))) != len(edges)
+    g = nx.MultiGraph() if multi else nx.Graph()
     g.add_nodes_from(nodes)
-    g.add_edges_from(edges)
-    for a, b in edges:
-        g.edges[a, b]["w"] = (a, b)
+    if multi:
+        for j, (a, b) in enumerate(edges):
+            g.add_edge(a, b, w=(a, b, j))
+    else:
+        g.add_edges_from(edges)
+        for a, b in edges:
+            g.edges[a, b]["w"] = (a, b)
     if cfg["phi"] == "sym":
         phi = ctx.real("phi", 0, 1)
     else:
